@@ -54,6 +54,10 @@ def grids(draw, nmax):
 @st.composite
 def cases(draw, nmax):
     kind, xi = draw(grids(nmax))
+    # spin-echo lengths handed over as a plain list of Python integers (a hand-typed grid) in a quarter of the cases
+    xi_int = draw(st.integers(0, 3)) == 0
+    if xi_int:
+        xi = [float(v) for v in sorted(set(int(round(v)) for v in xi))]
     n = len(xi)
     if draw(st.booleans()):
         lam = S.sig(draw(st.floats(2, 12)), 4)
@@ -63,14 +67,14 @@ def cases(draw, nmax):
     theta = math.pi / 2 if acc == "full" else S.sig(draw(st.floats(0.002, 0.05)), 4)
     ng = draw(st.integers(1, 3))
     gauss = [{"pos": draw(st.floats(0.05, 0.95)), "amp": S.sig(draw(st.floats(0.2, 5)), 3)} for _ in range(ng)]
-    return {"grid": kind, "xi": xi, "lam": lam, "theta": theta, "gauss": gauss,
+    return {"grid": kind, "xi": xi, "xi_int": xi_int, "lam": lam, "theta": theta, "gauss": gauss,
             "a": S.sig(draw(st.floats(-3, 3)), 3), "b": S.sig(draw(st.floats(-3, 3)), 3)}
 
 
-def _transform(xi, lam, theta):
+def _transform(xi, lam, theta, xi_int=False):
     from sasmodels.data import empty_sesans
     from sasmodels.direct_model import _make_sesans_transform
-    d = empty_sesans(np.asarray(xi, float), wavelength=np.asarray(lam, float) if not np.isscalar(lam) else lam,
+    d = empty_sesans([int(v) for v in xi] if xi_int else np.asarray(xi, float), wavelength=np.asarray(lam, float) if not np.isscalar(lam) else lam,
                      zacceptance=(theta, "radians"))
     return _make_sesans_transform(d)
 
@@ -83,7 +87,9 @@ def check_sesans(case, rec):
     full = theta >= math.pi / 2 - 1e-12
     rec.cls("grid:" + case["grid"], "acceptance:" + ("full" if full else "restricted"),
             "lambda:" + ("scalar" if np.isscalar(lam) else "per-point"))
-    T = _transform(xi, lam, theta)
+    T = _transform(xi, lam, theta, case.get("xi_int", False))
+    if case.get("xi_int"):
+        rec.cls("xi-as-integer-list")
     q = np.asarray(T.q_calc, float)
     if not (np.all(np.isfinite(q)) and np.all(q > 0) and np.all(np.diff(q) > 0)):
         rec.fail("q_calc:" + case["grid"], "q_calc not positive strictly increasing: %r" % q[:5])
